@@ -268,6 +268,10 @@ func (db *Database) SearchUniversal(query string, options SearchOptions) []Searc
 	if db.uIndex == nil || db.uIndex.N != len(db.Commands) {
 		// (Re)build lazily if needed
 		db.BuildUniversalIndex()
+		if db.tfidf != nil {
+			// The re-ranker and the command index describe the old command list
+			db.buildTFIDFSearcher()
+		}
 	}
 
 	if options.Limit <= 0 {
